@@ -54,8 +54,8 @@ def corpus():
                 for hasarea in ((0, 1) if not raster else (0,)):
                     out.append({"k": 1201, "args": [[raster, cache, hasarea], [x for p in ops2 for x in p]],
                                 "call": {"ds": net, "seed": 7}, "group": "corpus"})
-    # known finding F12: the node areas of a 1-D network object do not survive dump / load (this one case probes it; in every
-    # other case the reference object after a load is built without areas, which is what the code does)
+    # the node areas of a 1-D network object survive dump / load (repaired; this case probes it directly, every history with
+    # a load compares with a reference object built WITH the areas)
     out.append({"k": 1201, "args": [[0, 1, 1], [20, 0]], "call": {"ds": ds, "seed": 7, "probe_dumpload": 1}, "group": "corpus-dumpload-area"})
     return out
 
@@ -153,7 +153,7 @@ def impl(case):
     shape = (1, n)
 
     user_area = (np.random.RandomState(n + 17).randint(1, 40, size=n) / 4.0).astype(np.float32)
-    area_on = [bool(hasarea)]        # a dumped and re-loaded vector object has lost its node areas
+    area_on = [bool(hasarea)]        # a dumped and re-loaded vector object keeps its node areas (reference objects are built with them)
 
     def build(idxs_ds, transform, latlon, cacheflag):
         arr = np.array(idxs_ds, dtype=np.int32).copy()
@@ -252,13 +252,14 @@ def impl(case):
             os.makedirs(d, exist_ok=True)
             fn = os.path.join(d, f"obj_{os.getpid()}.pkl")
             probe = case["call"].get("probe_dumpload") and not raster and area_on[0]
-            upa0 = np.asarray(obj.upstream_area()).copy() if probe else None
             obj.dump(fn)
             obj = (pyflwdir.FlwdirRaster if raster else Flwdir).load(fn)
+            if probe:      # on second objects, so that the probe leaves no trace in the memo of the object under test
+                upa0 = np.asarray(build(np.asarray(obj.idxs_ds).copy(), None, False, True).upstream_area())
+                upa1 = np.asarray(Flwdir.load(fn).upstream_area())
             os.remove(fn)
-            if probe and not np.array_equal(upa0, np.asarray(obj.upstream_area())):
+            if probe and not np.array_equal(upa0, upa1):
                 return out + [[-7]]
-            area_on[0] = False
         out.append(occ(obj) + [flag])
     return out
 
